@@ -26,7 +26,7 @@ type raceRoot struct {
 	Many  bool // several instances may run concurrently
 	Kind  string
 	Reach map[*ssa.Function]bool
-	Spawn []*ssa.Go // go statements creating this root
+	Spawn []*ssa.Go  // go statements creating this root
 	WG    *types.Var // WaitGroup field the root signals with a deferred Done
 }
 
